@@ -181,6 +181,14 @@ func glueBundle(r *Rng, n int, st *Stats) {
 	hist := map[string]int{}
 	for i := 0; i < n; i++ {
 		files := genImportGraph(r, hist)
+		if i == 0 {
+			// fixed corpus: the known finding C12-H (anonymous layer import split per file)
+			files = []impFile{
+				{imports: []impRef{{target: 1, layer: "layer"}}},
+				{imports: []impRef{{target: 2}}, body: "@layer lc { a { color: teal } }\n"},
+				{body: "a { color: tan }\n"},
+			}
+		}
 		dir, err := os.MkdirTemp("", "verif-c12-")
 		if err != nil {
 			panic(err)
@@ -236,6 +244,15 @@ func glueBundle(r *Rng, n int, st *Stats) {
 			if err2 == nil && out2 == out {
 				for k, v := range detail {
 					desc[k] = v
+				}
+				// known finding: "@import x layer;" (anonymous) whose target has imports of
+				// its own is emitted as one separate anonymous @layer block per file
+				for _, f := range files {
+					for _, im := range f.imports {
+						if im.layer == "layer" && len(files[im.target].imports) > 0 {
+							desc["scenario"] = "anonymous-layer-import-split-per-file"
+						}
+					}
 				}
 				st.Fail("bundle-cascade-winner-changed", desc, detail["output_winner"], detail["input_winner"])
 			}
